@@ -582,9 +582,14 @@ def r14_11(ctx):
                 continue
             g = None
             for x in walk_local(f.node):
-                if not (isinstance(x, ast.Call) and isinstance(x.func, ast.Name) and x.func.id in ("max", "min") and len(x.args) == 1 and isinstance(x.args[0], (ast.GeneratorExp, ast.ListComp)) and len(x.args[0].generators) == 1):
+                if not (isinstance(x, ast.Call) and isinstance(x.func, ast.Name) and x.func.id in ("max", "min") and len(x.args) == 1):
                     continue
-                it = x.args[0].generators[0].iter
+                if isinstance(x.args[0], (ast.GeneratorExp, ast.ListComp)) and len(x.args[0].generators) == 1:
+                    it = x.args[0].generators[0].iter
+                elif isinstance(x.args[0], ast.Call) and norm(x.args[0].func) == "map" and len(x.args[0].args) == 2:
+                    it = x.args[0].args[1]  # max(map(f, s.splitlines())) is the same iteration
+                else:
+                    continue
                 if not (isinstance(it, ast.Call) and isinstance(it.func, ast.Attribute) and it.func.attr in ("splitlines", "split") and not it.args and not it.keywords):
                     continue
                 n += 1
